@@ -41,6 +41,7 @@ fn run_job(job: &Sexp) -> String {
         "literal" => lit::job_literal(job),
         "exhaust" => exhaust::job_exhaust(job),
         "program" => prog::job_program(job),
+        "lower" => prog::job_lower(job),
         "scan" => front::job_scan(job),
         "pretty" => front::job_pretty(job),
         "front" => front::job_front(job),
